@@ -170,6 +170,59 @@ func checkThesauri(prop string, seg segment.Segment, want *spec.Obs, excepts []s
 					}
 				}
 			}
+			// recycling callers: an iterator obtained from an EMPTY lookup (the shared empty
+			// iterator) is passed back as preallocation for a non-empty list which is then
+			// only partly drained; empty lookups afterwards must still be empty
+			if reuse && len(wantTerms) > 0 {
+				unknown := []byte("\x03nosuchterm\x03")
+				el, err := th.SynonymsList(unknown, nil, nil)
+				if err != nil {
+					return err
+				}
+				it0 := el.Iterator(nil)
+				if s0, _ := it0.Next(); s0 != nil {
+					v = violation(prop, "thes/unknown-term-nonempty", "%sthesaurus %q: unknown term yields synonym %q", tag, name, s0.Term())
+					return nil
+				}
+				known := wantTerms[len(wantTerms)-1]
+				kl, err := th.SynonymsList([]byte(known), nil, nil)
+				if err != nil {
+					return err
+				}
+				it1 := kl.Iterator(it0)
+				first, err := it1.Next() // partial drain
+				if err != nil {
+					return err
+				}
+				if first == nil {
+					v = violation(prop, "thes/synonyms", "%sthesaurus %q term %q: recycled iterator yields nothing, model %v", tag, name, known, model[known])
+					return nil
+				}
+				el2, err := th.SynonymsList(unknown, nil, nil)
+				if err != nil {
+					return err
+				}
+				if s2, _ := el2.Iterator(nil).Next(); s2 != nil {
+					v = violation(prop, "thes/empty-lookup-polluted", "%sthesaurus %q: after a recycled, partly drained iterator for term %q an unknown term yields synonym %q (doc %d)", tag, name, known, s2.Term(), s2.Number())
+					return nil
+				}
+				if other, err := ts.Thesaurus("nosuchthesaurus"); err == nil {
+					ol, err := other.SynonymsList([]byte(known), nil, nil)
+					if err != nil {
+						return err
+					}
+					if s3, _ := ol.Iterator(nil).Next(); s3 != nil {
+						v = violation(prop, "thes/empty-lookup-polluted", "%san unknown thesaurus yields synonym %q after a recycled, partly drained iterator", tag, s3.Term())
+						return nil
+					}
+				}
+				for { // drain it1 so later checks start clean
+					x, err := it1.Next()
+					if err != nil || x == nil {
+						break
+					}
+				}
+			}
 			// synonym fields contribute nothing to the ordinary dictionaries
 			if model != nil {
 				d, err := seg.Dictionary(name)
